@@ -141,6 +141,11 @@ fn once(gsrc: String, input: String) -> Result<String, String> {
         if matches!(q.last(), Some(R::Shift(_))) { return Err(format!("reported sequence {:?} ends in a shift", q)); }
         if !got.insert(q.clone()) { return Err(format!("sequence {:?} is reported twice", q)); }
     }
+    // order: sequences that insert a %avoid_insert token come after all those that do not; within each group shorter first
+    let keys: Vec<(bool, usize)> = pe.repairs().iter().map(|rs| (rs.iter().any(|r| matches!(r, ParseRepair::Insert(t) if grm.avoid_insert(*t))), rs.len())).collect();
+    for w in keys.windows(2) {
+        if w[0] > w[1] { return Err(format!("reported order (inserts an avoided token, length) = {:?} is not sorted", keys)); }
+    }
     if pe.repairs().is_empty() { return Ok("no repairs (budget)".into()); }
     if got != exp { return Err(format!("reported repair sequences {:?}, the minimum-cost repairs that get furthest are {:?}", got, exp)); }
     Ok(format!("{} sequences", got.len()))
@@ -176,6 +181,8 @@ pub fn search(_tag: &str, tier: &str) -> Option<Value> {
     for k in 0..n {
         let g = if k % 2 == 0 { GRMS[r.below(GRMS.len())].to_string() } else { crate::grms::random(1 + r.below(3000) as u64) };
         if g.contains("%left") || g.contains("%right") || g.contains("%nonassoc") { continue; }
+        // every other random grammar gets an %avoid_insert declaration (the ordering clause)
+        let g = if k % 4 == 1 && g.starts_with("%start") { let nl = g.find('\n').unwrap_or(0); format!("{}\n%avoid_insert '{}'{}", &g[..nl], ["a", "b", "c"][r.below(3)], &g[nl..]) } else { g };
         let l = 1 + r.below(7);
         let input: String = (0..l).map(|_| ["a ", "b ", "c "][r.below(3)]).collect();
         let o = run(&g, &input);
